@@ -3,6 +3,7 @@ import Driver.Pool
 import Driver.Dec
 import Driver.Mem
 import Driver.Ledger
+import Driver.MTProto
 
 def main (args : List String) : IO UInt32 := do
   match args with
@@ -11,4 +12,5 @@ def main (args : List String) : IO UInt32 := do
   | ["dec"] => Driver.Dec.main; return 0
   | ["mem"] => Driver.Mem.main; return 0
   | ["ledger"] => Driver.Ledger.main; return 0
+  | ["mtproto"] => Driver.MTProto.main; return 0
   | _ => IO.eprintln "usage: zvdriver <model>"; return 2
